@@ -508,6 +508,7 @@ func runC16(c *Check) {
 	c.ruleIndexBoundOnSameIndex("R7", "client.(*RemoteClient).GetOutputs")
 	c.ruleSpliceRemovesOne("R11", 10, "client")
 	c.ruleHeadersRoutedByRequestHeight("R12")
+	c.ruleClientChannelSenders("R13", clientChannelSenders)
 	c.ruleRemoveByIdentity("R6", fRequests, c.P.Field("client", "RemoteClient", "removeRequestsChannel"))
 
 	// ---- R6 ownership of the pending list
@@ -634,4 +635,14 @@ func flattenPhi(v ssa.Value, depth int) []ssa.Value {
 		return out
 	}
 	return []ssa.Value{v}
+}
+
+// clientChannelSenders: the confirmed senders of the remote client's internal channels (C16.R13), read
+// off the confirmed tree: one function per queue.
+var clientChannelSenders = map[string][]string{
+	"sendChannel":            {"client.(*RemoteClient).sendMessage"},
+	"addRequestsChannel":     {"client.(*RemoteClient).addRequest"},
+	"requestResponseChannel": {"client.(*RemoteClient).addRequestResponse"},
+	"removeRequestsChannel":  {"client.(*RemoteClient).removeRequest"},
+	"handlerChannel":         {"client.(*RemoteClient).addHandlerMessage"},
 }
